@@ -256,3 +256,46 @@ func checkAnyURIReader(res *Result, rule string) {
 	}
 	res.Count(rule+" anyURI rejections", n, 2)
 }
+
+// checkDurationWriterSign: SerializeDuration normalises the sign first — the raw parameter is only
+// ever compared with 0 (the sign test) and negated; every other test (the unit thresholds, a
+// "zero duration" shortcut) looks at the normalised value, else a negative duration takes the
+// branch meant for small positive ones.
+func checkDurationWriterSign(res *Result, rule string) {
+	sp := loadValuesSSA()["duration"]
+	if sp == nil {
+		res.undecided(rule, "values/duration", "-", "duration codec in SSA form", "package not built")
+		return
+	}
+	fn := sp.Func("SerializeDuration")
+	if fn == nil || len(fn.Blocks) == 0 || len(fn.Params) != 1 {
+		res.undecided(rule, "values/duration", "-", "SerializeDuration found", "missing")
+		return
+	}
+	pos := func(p interface{ Pos() token.Pos }) string { return relPos(fn.Prog.Fset, p.Pos()) }
+	prm := fn.Params[0]
+	nSign, bad := 0, ""
+	for _, ref := range *prm.Referrers() {
+		switch x := ref.(type) {
+		case *ssa.BinOp:
+			switch x.Op {
+			case token.LSS, token.GTR, token.LEQ, token.GEQ, token.EQL, token.NEQ:
+				other := x.Y
+				if other == ssa.Value(prm) {
+					other = x.X
+				}
+				if n, isN := intConst(other); isN && n == 0 {
+					nSign++
+				} else {
+					bad = pos(x)
+				}
+			}
+		case *ssa.Call:
+			// this.Hours() etc. on the raw parameter: a unit computed before the sign is normalised
+			if x.Common().StaticCallee() != nil && len(x.Common().Args) > 0 && x.Common().Args[0] == ssa.Value(prm) {
+				bad = pos(x)
+			}
+		}
+	}
+	res.check(nSign >= 1 && bad == "", rule, "values/duration", pos(fn), "SerializeDuration tests the sign first: the raw value is only compared with 0 and negated; thresholds look at the normalised value", "the raw (possibly negative) duration is measured at "+bad+": a negative duration takes the branch meant for small positive ones (e.g. -PT45S is written as a zero duration)")
+}
